@@ -38,7 +38,10 @@ CONSTANTS Accts,         \* modelled accounts (strings)
           MaxTx,         \* transactions per block
           MaxOps,        \* bound on the number of recorded steps
           Record,        \* TRUE: keep the history (generator); FALSE: exhaustive checking without it
-          Impl           \* "required" | "code"
+          Impl,          \* "required" | "code"
+          ExtBond,       \* bond (= stake) an external P-Rep holds from a background bonder
+          ExtDeleg,      \* delegation an external P-Rep holds from background accounts
+          PoolInit       \* reward quanta in the treasury that claims can pay out
 
 Targets == Accts \cup Ext
 NoUb == [val |-> 0, exp |-> 0]
@@ -54,14 +57,19 @@ VARIABLES h,        \* height of the block being filled
           unbond,   \* [Accts -> [Targets -> [val, exp]]]   val = 0: none
           ustimer,  \* [Heights -> SUBSET Accts]  unstaking timers
           ubtimer,  \* [Heights -> SUBSET Accts]  unbonding timers
-          reg,      \* [Accts -> {"none", "active", "unreg"}]  P-Rep status of an account
+          reg,      \* [Accts -> {"none", "active", "unreg", "disq"}]  P-Rep status of an account
           supply,   \* total supply (of the modelled part of the world)
           tstake, tdeleg, tbond,   \* network totals as maintained incrementally by the code
+          burned,   \* ICX burned so far (registration fees, slashed bonds)
+          xst,      \* [Ext -> {"active", "disq"}]  status of the external P-Reps
+          xbond,    \* [Ext -> Nat]  bond of the background bonder to an external P-Rep
+          pool,     \* reward quanta left in the treasury (rewards are below the unit resolution)
+          rew,      \* [Accts -> Nat]  reward quanta claimed by an account
           ctimer,   \* ghost: the unstaking timers as the code's job lists leave them (= ustimer if Impl = "code")
           lostc,    \* ghost: {[a, e, cause]}: account a has a slot expiring at e but the code's timer of e lost a
           hist      \* recorded steps with the predicted results (generator / replay oracle)
 vars == <<h, ntx, lockp, bal, stake, slots, deleg, bond, unbond, ustimer, ubtimer, reg, supply,
-          tstake, tdeleg, tbond, ctimer, lostc, hist>>
+          tstake, tdeleg, tbond, ctimer, lostc, burned, xst, xbond, pool, rew, hist>>
 
 \* sums over the (small, constant) sets Targets and Accts, by index over a fixed enumeration
 SeqOf(S) == CHOOSE s \in [1..Cardinality(S) -> S] : \A x \in S : \E i \in 1..Cardinality(S) : s[i] = x
@@ -84,7 +92,7 @@ ZeroVec == [t \in Targets |-> 0]
 Unstaking(a) == SumVal(slots[a])
 UnbondTotal(a) == SumT([t \in Targets |-> unbond[a][t].val])
 Using(a) == SumVec(deleg[a]) + SumVec(bond[a]) + UnbondTotal(a)          \* accountData.UsingStake
-Active(t) == IF t \in Ext THEN TRUE ELSE reg[t] = "active"
+Active(t) == IF t \in Ext THEN xst[t] = "active" ELSE reg[t] = "active"
 HasBase(t) == IF t \in Ext THEN TRUE ELSE reg[t] # "none"               \* a PRepBase exists
 Delegated(t) == SumA([a \in Accts |-> deleg[a][t]])
 Bonded(t) == SumA([a \in Accts |-> bond[a][t]])
@@ -126,6 +134,7 @@ TimerAfter(tm, a, s, jobs) ==
   ELSE [e \in Heights |-> IF e \in LostHeights(c, a, s) THEN c[e] \cup {a} ELSE c[e]]
 
 ----------------------------------------------------------------------------
+GVars == <<burned, xst, xbond, pool, rew>>
 Rec(op, a, v, to, vec, res, why, forced) ==
   [op |-> op, a |-> a, v |-> v, to |-> to, vec |-> vec, res |-> res, why |-> why, forced |-> forced,
    h |-> h, lp |-> lockp]
@@ -133,7 +142,7 @@ Log(r) == hist' = IF Record THEN Append(hist, r) ELSE hist
 \* a rejected transaction stays in the block and changes nothing else
 Reject(r) == /\ Log(r) /\ ntx' = ntx + 1
              /\ UNCHANGED <<h, lockp, bal, stake, slots, deleg, bond, unbond, ustimer, ubtimer, reg,
-                            supply, tstake, tdeleg, tbond, ctimer, lostc>>
+                            supply, tstake, tdeleg, tbond, ctimer, lostc, burned, xst, xbond, pool, rew>>
 CanTx == ntx < MaxTx /\ Len(hist) < MaxOps
 
 Init == /\ h = 0 /\ ntx = 0 /\ lockp \in Periods
@@ -143,8 +152,10 @@ Init == /\ h = 0 /\ ntx = 0 /\ lockp \in Periods
         /\ unbond = [a \in Accts |-> [t \in Targets |-> NoUb]]
         /\ ustimer = [e \in Heights |-> {}] /\ ubtimer = [e \in Heights |-> {}]
         /\ reg = [a \in Accts |-> "none"]
-        /\ supply = Cardinality(Accts) * MaxAmt
-        /\ tstake = 0 /\ tdeleg = 0 /\ tbond = 0
+        /\ supply = Cardinality(Accts) * MaxAmt + Cardinality(Ext) * ExtBond
+        /\ tstake = Cardinality(Ext) * ExtBond /\ tdeleg = Cardinality(Ext) * ExtDeleg /\ tbond = Cardinality(Ext) * ExtBond
+        /\ burned = 0 /\ xst = [t \in Ext |-> "active"] /\ xbond = [t \in Ext |-> ExtBond]
+        /\ pool = PoolInit /\ rew = [a \in Accts |-> 0]
         /\ ctimer = [e \in Heights |-> {}] /\ lostc = {}
         /\ hist = <<>>
 
@@ -156,7 +167,7 @@ SetStake(a, v) ==
      ELSE IF v = stake[a] THEN
        /\ Log(R("ok", "same", FALSE)) /\ ntx' = ntx + 1
        /\ UNCHANGED <<h, lockp, bal, stake, slots, deleg, bond, unbond, ustimer, ubtimer, reg,
-                      supply, tstake, tdeleg, tbond, ctimer, lostc>>
+                      supply, tstake, tdeleg, tbond, ctimer, lostc, burned, xst, xbond, pool, rew>>
      ELSE IF bal[a] + stake[a] + Unstaking(a) < v THEN Reject(R("reject", "balance", TRUE))
      ELSE LET inc == v - stake[a]
               r == IF inc > 0 THEN DecUs(slots[a], inc, <<>>) ELSE IncUs(slots[a], -inc, h + lockp)
@@ -176,7 +187,7 @@ SetStake(a, v) ==
                                   e \in {x \in ExpSet(r[1]) : a \notin ct[x] /\ a \in ctimer[x]}}
              /\ Log(R("ok", "", FALSE))
              /\ ntx' = ntx + 1
-             /\ UNCHANGED <<h, lockp, deleg, bond, unbond, ubtimer, reg, supply, tdeleg, tbond>>
+             /\ UNCHANGED <<h, lockp, deleg, bond, unbond, ubtimer, reg, supply, tdeleg, tbond, burned, xst, xbond, pool, rew>>
 
 (* extension.go SetDelegation: d is the complete new delegation vector *)
 SetDelegation(a, d) ==
@@ -187,7 +198,7 @@ SetDelegation(a, d) ==
           /\ tdeleg' = tdeleg + SumT([t \in Targets |-> IF Active(t) THEN d[t] - deleg[a][t] ELSE 0])
           /\ Log(R("ok", "", FALSE)) /\ ntx' = ntx + 1
           /\ UNCHANGED <<h, lockp, bal, stake, slots, bond, unbond, ustimer, ubtimer, reg, supply,
-                         tstake, tbond, ctimer, lostc>>
+                         tstake, tbond, ctimer, lostc, burned, xst, xbond, pool, rew>>
 
 (* account.go UpdateUnbonds for the bond delta b - bond[a] with expire height ubh *)
 NewUnbond(a, b, ubh) ==
@@ -215,7 +226,7 @@ SetBond(a, b) ==
           /\ ubtimer' = UbTimerAfter(ubtimer, a, nu)
           /\ tbond' = tbond + SumT([t \in Targets |-> IF Active(t) THEN b[t] - bond[a][t] ELSE 0])
           /\ Log(R("ok", "", FALSE)) /\ ntx' = ntx + 1
-          /\ UNCHANGED <<h, lockp, bal, stake, slots, deleg, ustimer, reg, supply, tstake, tdeleg, ctimer, lostc>>
+          /\ UNCHANGED <<h, lockp, bal, stake, slots, deleg, ustimer, reg, supply, tstake, tdeleg, ctimer, lostc, burned, xst, xbond, pool, rew>>
 
 Transfer(a, to, v) ==
   /\ CanTx /\ to # a
@@ -224,7 +235,7 @@ Transfer(a, to, v) ==
      ELSE /\ bal' = [bal EXCEPT ![a] = @ - v, ![to] = @ + v]
           /\ Log(R("ok", "", FALSE)) /\ ntx' = ntx + 1
           /\ UNCHANGED <<h, lockp, stake, slots, deleg, bond, unbond, ustimer, ubtimer, reg, supply,
-                         tstake, tdeleg, tbond, ctimer, lostc>>
+                         tstake, tdeleg, tbond, ctimer, lostc, burned, xst, xbond, pool, rew>>
 
 (* extension.go RegisterPRep (fee burned) + state.go RegisterPRep; the bonder list of the new
    P-Rep is set to all accounts by a second transaction of the same sender *)
@@ -234,11 +245,11 @@ Register(a) ==
      IF bal[a] < Fee THEN Reject(R("reject", "balance", TRUE))
      ELSE IF reg[a] # "none" THEN Reject(R("reject", "used", FALSE))
      ELSE /\ bal' = [bal EXCEPT ![a] = @ - Fee]
-          /\ supply' = supply - Fee
+          /\ supply' = supply - Fee /\ burned' = burned + Fee
           /\ reg' = [reg EXCEPT ![a] = "active"]
           /\ tdeleg' = tdeleg + Delegated(a)
           /\ Log(R("ok", "", FALSE)) /\ ntx' = ntx + 1
-          /\ UNCHANGED <<h, lockp, stake, slots, deleg, bond, unbond, ustimer, ubtimer, tstake, tbond, ctimer, lostc>>
+          /\ UNCHANGED <<h, lockp, stake, slots, deleg, bond, unbond, ustimer, ubtimer, tstake, tbond, ctimer, lostc, xst, xbond, pool, rew>>
 
 (* extension.go UnregisterPRep -> state.go DisablePRep *)
 Unregister(a) ==
@@ -250,14 +261,42 @@ Unregister(a) ==
           /\ tdeleg' = tdeleg - Delegated(a)
           /\ Log(R("ok", "", FALSE)) /\ ntx' = ntx + 1
           /\ UNCHANGED <<h, lockp, bal, stake, slots, deleg, bond, unbond, ustimer, ubtimer, supply,
-                         tstake, tbond, ctimer, lostc>>
+                         tstake, tbond, ctimer, lostc, burned, xst, xbond, pool, rew>>
+
+(* slash: penalty.go slash(owner, 100%) - every bond and unbond of the P-Rep's bonders is taken from
+   their stake and burned *)
+Disqualify(t) ==
+  /\ CanTx
+  /\ LET R(res, why) == Rec("disq", "", 0, t, ZeroVec, res, why, FALSE) IN
+     IF ~HasBase(t) \/ ~Active(t) THEN Reject(R("reject", "state"))
+     ELSE LET sl == [a \in Accts |-> bond[a][t] + unbond[a][t].val]
+              nunb == [a \in Accts |-> [unbond[a] EXCEPT ![t] = NoUb]]
+              xb == IF t \in Ext THEN xbond[t] ELSE 0
+              xd == IF t \in Ext THEN ExtDeleg ELSE 0
+              total == SumA(sl) + xb
+              \* unbond timer entries that no unbond of the account needs any more
+              stale == {[a |-> a, e |-> unbond[a][t].exp] : a \in {x \in Accts : unbond[x][t].val > 0 /\
+                           ~\E u \in Targets : nunb[x][u].val > 0 /\ nunb[x][u].exp = unbond[x][t].exp}}
+          IN /\ IF t \in Ext THEN xst' = [xst EXCEPT ![t] = "disq"] /\ xbond' = [xbond EXCEPT ![t] = 0] /\ UNCHANGED reg
+                          ELSE reg' = [reg EXCEPT ![t] = "disq"] /\ UNCHANGED <<xst, xbond>>
+             /\ bond' = [a \in Accts |-> [bond[a] EXCEPT ![t] = 0]]
+             /\ unbond' = nunb
+             /\ ubtimer' = [e \in Heights |-> {a \in ubtimer[e] : \E u \in Targets : nunb[a][u].val > 0 /\ nunb[a][u].exp = e}]
+             /\ stake' = [a \in Accts |-> stake[a] - sl[a]]
+             /\ tstake' = tstake - total
+             /\ tbond' = tbond - (Bonded(t) + xb)
+             /\ tdeleg' = tdeleg - (Delegated(t) + xd)
+             /\ supply' = supply - total /\ burned' = burned + total
+             /\ Log(R("ok", "") @@ [stale |-> stale]) /\ ntx' = ntx + 1
+             /\ UNCHANGED <<h, lockp, bal, slots, deleg, ustimer, ctimer, lostc, pool, rew>>
 
 (* extension.go ClaimIScore: treasury -> claimer, below the model's resolution *)
-Claim(a) ==
-  /\ CanTx
-  /\ Log(Rec("claim", a, 0, "", ZeroVec, "ok", "", FALSE)) /\ ntx' = ntx + 1
+Claim(a, r) ==
+  /\ CanTx /\ r <= pool
+  /\ pool' = pool - r /\ rew' = [rew EXCEPT ![a] = @ + r]
+  /\ Log(Rec("claim", a, r, "", ZeroVec, "ok", "", FALSE)) /\ ntx' = ntx + 1
   /\ UNCHANGED <<h, lockp, bal, stake, slots, deleg, bond, unbond, ustimer, ubtimer, reg, supply,
-                 tstake, tdeleg, tbond, ctimer, lostc>>
+                 tstake, tdeleg, tbond, ctimer, lostc, burned, xst, xbond>>
 
 \* predicted projection after the block
 Proj == [a \in Accts |-> [bal |-> bal'[a], stake |-> stake'[a], slots |-> slots'[a], deleg |-> deleg'[a],
@@ -277,9 +316,12 @@ EndBlock(p) ==
         /\ ctimer' = [ctimer EXCEPT ![h] = {}]
         /\ lostc' = {l \in lostc : l.e # h}
   /\ h' = h + 1 /\ ntx' = 0 /\ lockp' = p
-  /\ UNCHANGED <<stake, deleg, bond, reg, supply, tstake, tdeleg, tbond>>
-  /\ Log([op |-> "end", h |-> h, lp |-> lockp, st |-> Proj, lost |-> lostc,
-          tot |-> [supply |-> supply, tstake |-> tstake, tdeleg |-> tdeleg, tbond |-> tbond]])
+  /\ UNCHANGED <<stake, deleg, bond, reg, supply, tstake, tdeleg, tbond, burned, xst, xbond, pool, rew>>
+  /\ Log([op |-> "end", h |-> h, lp |-> lockp, st |-> Proj, lost |-> lostc, xst |-> xst,
+          tot |-> [supply |-> supply, tstake |-> tstake, tdeleg |-> tdeleg, tbond |-> tbond, burned |-> burned],
+          tot0 |-> [supply |-> Cardinality(Accts) * MaxAmt + Cardinality(Ext) * ExtBond,
+                    tstake |-> Cardinality(Ext) * ExtBond, tdeleg |-> Cardinality(Ext) * ExtDeleg,
+                    tbond |-> Cardinality(Ext) * ExtBond, burned |-> 0]])
 
 Next == \/ \E a \in Accts, v \in 0..MaxAmt : SetStake(a, v)
         \/ \E a \in Accts, d \in Vecs : SetDelegation(a, d)
@@ -287,21 +329,27 @@ Next == \/ \E a \in Accts, v \in 0..MaxAmt : SetStake(a, v)
         \/ \E a \in Accts, to \in Accts, v \in 1..MaxAmt : Transfer(a, to, v)
         \/ \E a \in Accts : Register(a)
         \/ \E a \in Accts : Unregister(a)
-        \/ \E a \in Accts : Claim(a)
+        \/ \E t \in Targets : Disqualify(t)
+        \/ \E a \in Accts, r \in 0..1 : Claim(a, r)
         \/ \E p \in Periods : EndBlock(p)
 Spec == Init /\ [][Next]_vars
 
 ----------------------------------------------------------------------------
 (* C34 *)
 \* total supply = balances + staked + unstaking
-Conservation == supply = SumA([a \in Accts |-> bal[a] + stake[a] + Unstaking(a)])
+SumX(f) == IF Ext = {} THEN 0 ELSE SumT([t \in Targets |-> IF t \in Ext THEN f[t] ELSE 0])
+Conservation == supply = SumA([a \in Accts |-> bal[a] + stake[a] + Unstaking(a)]) + SumX(xbond)
+\* every ICX that left the supply was burned (registration fee, slashed bonds); nothing else changes the supply
+BurnAccounted == supply + burned = Cardinality(Accts) * MaxAmt + Cardinality(Ext) * ExtBond
+\* a claim moves reward from the treasury to the claimer and nowhere else
+ClaimAccounted == pool + SumA(rew) = PoolInit
 \* delegated + bonded + unbonding never exceeds the stake
 VotingWithinStake == \A a \in Accts : Using(a) <= stake[a]
 \* network totals equal the per-account sums (delegation and bond counted for active P-Reps)
 TotalsConsistent ==
-  /\ tstake = SumA(stake)
-  /\ tdeleg = SumT([t \in Targets |-> IF Active(t) THEN Delegated(t) ELSE 0])
-  /\ tbond = SumT([t \in Targets |-> IF Active(t) THEN Bonded(t) ELSE 0])
+  /\ tstake = SumA(stake) + SumX(xbond)
+  /\ tdeleg = SumT([t \in Targets |-> IF Active(t) THEN Delegated(t) + (IF t \in Ext THEN ExtDeleg ELSE 0) ELSE 0])
+  /\ tbond = SumT([t \in Targets |-> IF Active(t) THEN Bonded(t) + (IF t \in Ext THEN xbond[t] ELSE 0) ELSE 0])
 \* no unstake / unbond entry survives its expire height
 NoOverdueUnstake == \A a \in Accts : \A i \in 1..Len(slots[a]) : slots[a][i].exp >= h
 NoOverdueUnbond == \A a \in Accts, t \in Targets : unbond[a][t].val > 0 => unbond[a][t].exp >= h
@@ -317,6 +365,6 @@ Locked(a) == stake[a] + Unstaking(a)
 DueAt(a) == SumVal(SelectSeq(slots[a], LAMBDA u : u.exp = h))
 ReturnedOnceWhenDue ==
   [][\A a \in Accts :
-       /\ Locked(a)' >= Locked(a) - (IF h' # h THEN DueAt(a) ELSE 0)
+       /\ Locked(a)' >= Locked(a) - (IF h' # h THEN DueAt(a) ELSE 0) - (burned' - burned)   \* or is slashed and burned
        /\ (h' # h /\ a \in ustimer[h]) => bal'[a] = bal[a] + DueAt(a)]_vars
 =============================================================================
